@@ -76,6 +76,13 @@ _a("ppath", _P, ["str", str(_P)], core=True)
 _a("s_path", str(_P), ["str", str(_P)])
 
 
+# unsupported types: hashing must end with the coded error TYPE_NOT_SUPPORTED, also when nested
+_a("u_bytes", b"raw", ["unsupported", "bytes"], core=True, sup=False)
+_a("u_set", frozenset([1]), ["unsupported", "set"], sup=False)
+_a("u_complex", 1j, ["unsupported", "complex"], sup=False)
+_a("u_object", object, ["unsupported", "type"], sup=False)
+
+
 def by_id() -> Dict[str, Dict[str, Any]]:
     return {a["id"]: a for a in ATOMS}
 
